@@ -57,6 +57,13 @@ class NonCovalentlyCoupledGroups:
                 or min(default_pka1, default_pka2) > self.parameters.max_pka):
             if return_on_fail:
                 return {'coupling_factor': -1.0}
+        # The swap moves determinants to the end of the partner's list, so
+        # swapping back restores the content of the lists but not their order
+        # (which is the summation order): keep copies to restore them exactly
+        saved_lists = [
+            (group.determinants[type_], list(group.determinants[type_]))
+            for group in (group1, group2)
+            for type_ in ('coulomb', 'sidechain')]
         # Swap interactions and re-calculate pKa values
         self.swap_interactions([group1], [group2])
         group1.calculate_total_pka()
@@ -70,6 +77,8 @@ class NonCovalentlyCoupledGroups:
         pka_shift2 = swapped_pka2 - default_pka2
         # Swap back to original protonation state
         self.swap_interactions([group1], [group2])
+        for determinant_list, original in saved_lists:
+            determinant_list[:] = original
         group1.calculate_total_pka()
         group2.calculate_total_pka()
         # check difference in free energy
